@@ -10,7 +10,7 @@ ID = "C05"
 LEAN_PROPS = ["FcpptProofs.Props.C05"]
 
 
-FAMILIES = ("alg", "opt", "eith", "tup", "grid", "opts", "parse")
+FAMILIES = ("alg", "opt", "eith", "tup", "rec", "grid", "opts", "parse")
 
 
 def _repo_srcs():
@@ -117,6 +117,18 @@ def grid_resize_shapes(maxn):
             yield (w * h,), [w, h, w2, h2]
 
 
+def same_sized(nargs, cap):
+    """all arguments have the same size 0..min(maxn, cap)"""
+    return lambda maxn: [(tuple([n] * nargs), []) for n in range(min(maxn, cap) + 1)]
+
+
+def no_args(pars):
+    return lambda maxn: [((), p) for p in pars(maxn)]
+
+
+never = lambda cats: False
+
+
 def one(pars, nargs=1):
     """every argument holds exactly one element"""
     return lambda maxn: [(tuple([1] * nargs), p) for p in pars]
@@ -146,7 +158,7 @@ def table():
         ("optfilter", [ANY], opt_sized(1, BIT), rv_only),
         ("optjoin", [ANY], opt_sized(1, lambda s: [[1]] if s[0] else [[0], [1]]), rv_only),
         ("optcombine", [ANY, ANY], opt_sized(2), rv_only),
-        ("optapply2", [ANY, ANY], opt_sized(2), rv_only),
+        ("optapply2", [ANY, ANY], opt_sized(2), always),
         ("optseq", [ANY], mask_shapes, rv_only),
         ("optcat", [ANY], mask_shapes, rv_only),
         ("opttocont", [ANY], opt_sized(1), rv_only),
@@ -174,7 +186,7 @@ def table():
         # tuples, arrays, records: the size is a template argument (0..3; two-container operations 0..2)
         ("tupmap", [ANY], sized(1, cap=3), always),
         ("tuppush", [ANY, ANY], sized(2, {1: [1]}, cap=3), rv_only),
-        ("tupconcat", ["r", "r"], sized(2, cap=2), always),
+        ("tupconcat", [ANY, ANY], sized(2, cap=2), rv_only),
         ("arrmap", [ANY], sized(1, cap=3), always),
         ("arrpush", [ANY, ANY], sized(2, {1: [1]}, cap=3), rv_only),
         ("arrjoin2", [ANY, ANY], sized(2, cap=2), rv_only),
@@ -199,6 +211,38 @@ def table():
         ("optsoption", ["r"], opt_sized(1), always),
         ("parseseq", [], lambda maxn: [((), [k]) for k in range(3)], always),
         ("parserep", [], lambda maxn: [((), [k]) for k in range(maxn + 2)], always),
+        # extension round 1: tuple / array / record
+        ("tupinvoke", [ANY], sized(1, cap=3), always),
+        ("tupapply2", ["r", ANY], same_sized(2, 3), always),
+        ("arrapply2", [ANY, ANY], same_sized(2, 3), always),
+        ("tupfromarr", [ANY], sized(1, cap=3), rv_only),
+        ("tupmake2", [ANY, ANY], one([[]], 2), rv_only),
+        ("arrmake2", [ANY, ANY], one([[]], 2), rv_only),
+        ("recctor2", [ANY, ANY], one([[0], [1]], 2), rv_only),
+        ("tupinit", [], no_args(lambda m: [[k] for k in range(4)]), always),
+        ("arrinit", [], no_args(lambda m: [[k] for k in range(4)]), always),
+        ("recinit", [], no_args(lambda m: [[k] for k in range(4)]), always),
+        # optional / either / variant: constructors, assign, to_exception, maybe*, construct, try_call, loop
+        ("optmake", [ANY], one([[]]), rv_only),
+        ("optctor", [ANY], one([[]]), rv_only),
+        ("optassign", ["i", "r"], sized(2, {0: [0, 1], 1: [1]}), always),
+        ("opttoexc", [ANY], opt_sized(1), rv_only),
+        ("optmakeif", [], no_args(lambda m: [[0], [1]]), always),
+        ("optmaybe", [ANY], opt_sized(1), always),
+        ("optmaybevoid", [ANY], opt_sized(1), always),
+        ("optmaybemulti2", [ANY, ANY], opt_sized(2), always),
+        ("optmaybevoidmulti2", [ANY, ANY], opt_sized(2), always),
+        ("optcopyvalue", ["lc"], opt_sized(1), never),
+        ("eithmakesucc", [ANY], one([[]]), rv_only),
+        ("eithmakefail", [ANY], one([[]]), rv_only),
+        ("eithctor", [ANY], one(BIT(0)), rv_only),
+        ("eithconstruct", [], no_args(lambda m: [[0], [1]]), always),
+        ("eithtrycall", [], no_args(lambda m: [[0], [1]]), always),
+        ("eithtoexc", [ANY], one(BIT(0)), rv_only),
+        ("eitherrfromopt", [ANY], opt_sized(1), rv_only),
+        ("eithseqerr", [ANY], sized(1, par=lambda s: masks(s[0], 1)), always),
+        ("eithloop", [], no_args(lambda m: [[k] for k in range(m + 1)]), always),
+        ("varctor", [ANY], one([[0], [1], [2]]), rv_only),
         ("eithfirst", [], lambda maxn: [((), list(m)) for ln in range(maxn + 1) for m in itertools.product([0, 1], repeat=ln)], always),
     ]
 
